@@ -1721,7 +1721,7 @@ def check_sat(constraints, timeout_s=20.0):
   return 'unknown', reason
 
 
-FALSIFY = {'tries': 10, 'timeout_ms': 4000, 'found': 0, 'attempts': 0, 'scale': Fraction(1)}
+FALSIFY = {'tries': 10, 'timeout_ms': 4000, 'found': 0, 'attempts': 0, 'scale': Fraction(1), 'budget': 60}
 _CANDS = [Fraction(v) for v in (1, -1, 2, 0, 3, -2)] + [Fraction(1, 2), Fraction(-1, 2), Fraction(3, 2), Fraction(5)]
 
 
@@ -1752,6 +1752,8 @@ def guided_model_search(cs):
     return None
   rng = random.Random(len(reals) * 7919 + len(cs))
   for attempt in range(FALSIFY['tries']):
+    if FALSIFY['attempts'] >= FALSIFY['budget']:     # per-process cap: the search is a convenience, never a verdict
+      return None
     FALSIFY['attempts'] += 1
     s = z3.Solver()
     s.set('timeout', FALSIFY['timeout_ms'])
